@@ -6,12 +6,12 @@ import (
 	"verif/internal/wasmenc"
 )
 
-// MutateIns edits one function body of a valid generated module at instruction granularity
+// MutateIns (deterministic: the inserted instructions have fully specified results) edits one function body of a valid generated module at instruction granularity
 // (the generator records where each of its instructions starts): delete, duplicate, swap two
 // neighbours, replace by a simple instruction of another type, or copy an instruction from
 // elsewhere. The result differs from a valid program in one typing detail, which the validator
 // has to notice; whatever it accepts is executed on both engines.
-func MutateIns(t *rapid.T, m *Module) ([]byte, string) {
+func MutateIns(t *rapid.T, m *Module, deterministic bool) ([]byte, string) {
 	c := *m.Enc
 	c.Funcs = append([]wasmenc.Func{}, m.Enc.Funcs...)
 	var cand []int
@@ -31,6 +31,17 @@ func MutateIns(t *rapid.T, m *Module) ([]byte, string) {
 	simple := [][]byte{{0x1a}, {0x41, 0}, {0x42, 0}, {0x43, 0, 0, 0, 0}, {0x44, 0, 0, 0, 0, 0, 0, 0, 0}, {0x45}, {0x50}, {0xa7}, {0xad}, {0x8c}, {0x9a}, {0x1b}, {0x01}, {0x00}, {0x0f},
 		{0x20, 0}, {0x21, 0}, {0x22, 0}, {0xd0, 0x70}, {0xd0, 0x6f}, {0xd1}, {0x3f, 0}, {0x6a}, {0x7c}, {0x92}, {0xa0}, {0xbc}, {0xbd}, {0xbe}, {0xbf}, {0xc0}, {0xc2},
 		{0xfd, 12, 0, 0, 0, 0, 0, 0, 0, 0, 0, 0, 0, 0, 0, 0, 0, 0}, {0xfd, 83}, {0xfd, 14}, {0x0b}, {0x05}, {0x02, 0x40}, {0x03, 0x40}, {0x04, 0x40}, {0x0c, 0}, {0x0d, 0}}
+	if deterministic {
+		// without the float arithmetic whose NaN payloads the specification leaves open
+		var d [][]byte
+		for _, x := range simple {
+			if len(x) == 1 && (x[0] == 0x92 || x[0] == 0xa0) {
+				continue
+			}
+			d = append(d, x)
+		}
+		simple = d
+	}
 	var out []byte
 	var op string
 	switch rapid.IntRange(0, 5).Draw(t, "insop") {
